@@ -100,6 +100,11 @@ def generate(rng, tier="quick"):
             steps.append({"op": "decode", "pset": 0, "body": {"kind": "hex", "hex": "%02x" % v}})
         steps.append({"op": "decode", "pset": 0, "body": {"kind": "hex", "hex": ""}})
         scan = "one-byte-field-all"
+    elif g.kind == "int" and g.elem_size == 2 and rng.random() < 0.5:
+        v0 = (idx * 256) % 65536
+        for v in range(v0, v0 + 256):
+            steps.append({"op": "decode", "pset": 0, "body": {"kind": "hex", "hex": "%04x" % v}})
+        scan = "two-byte-field-window"
     else:
         scan = None
     # a few more strings against the decoder in the same run; some offered twice in a row
